@@ -980,6 +980,11 @@ var corpus = []Replay{
 	{Kind: "stmt", Text: `'SELECT' 'FROM' a=b`}, {Kind: "stmt", Text: `SELECT WHERE NOT not = 5`}, {Kind: "stmt", Text: `TRUNCATE MINSIZE = 5`},
 	{Kind: "stmt", Text: `SHOW PARTITIONS LIMIT 5`}, {Kind: "stmt", Text: `SHOW PIPES a=b OFFSET 1`},
 	{Kind: "stmt", Text: `TRUNCATE MINSIZE 9223372036854775808`},
+	// ParseLql's rule for a keyword-only text: the bare SELECT keyword (blanks around it, any case) is &Select{}; a quoted
+	// 'SELECT' (a String token the grammar's literal matches by value) and every other keyword are errors
+	{Kind: "stmt", Text: " select\n"}, {Kind: "stmt", Text: `'SELECT'`}, {Kind: "stmt", Text: `"SELECT"`}, {Kind: "stmt", Text: `'SHOW'`},
+	{Kind: "stmt", Text: `TRUNCATE MINSIZE 0 MAXSIZE 9223372036854775808 MAXDBSIZE 9223372036854775809`},
+	{Kind: "stmt", Text: `TRUNCATE DRYRUN {a=b} BEFORE "1552307695000000123" MAXDBSIZE 1.5k`},
 	{Kind: "stmt", Text: `DESCRIBE PARTITION {a=b,c="d e"}`}, {Kind: "stmt", Text: `DESCRIBE PIPE p.1`}, {Kind: "stmt", Text: ` DELETE PIPE p:1/x-y`},
 	{Kind: "stmt", Text: ``}, {Kind: "expr", Text: ``}, {Kind: "source", Text: ``},
 	{Kind: "source", Text: `{a=b} OR c=d`}, {Kind: "source", Text: `{a="x,y",c=d}`}, {Kind: "source", Text: `{a="q\"uote"}`},
